@@ -495,7 +495,7 @@ def index(path):
     """metadata (id, tags, line range) of the generated catalogue functions"""
     text = open(path).read()
     res = []
-    for m in re.finditer(r'^//#fn id=(catalogue::\S+) tags=(\S*) mode=(\w+)$', text, re.M):
+    for m in re.finditer(r'^//#fn id=(catalogue::\S+) tags=(\S*) mode=(\w+)(?: lost=(\S+))?$', text, re.M):
         st = m.end() + 1
         ob = None
         dp = 0
@@ -512,7 +512,7 @@ def index(path):
         cb = rx.match_close(text, ob)
         res.append(dict(id=m.group(1), tags=[t for t in m.group(2).split(',') if t], mode=m.group(3),
                         out_lines=[rx.line_of(text, st), rx.line_of(text, cb)], rules=['CATALOGUE'], contract=[],
-                        src_file='catalogue expansion', src_lines=[]))
+                        src_file='catalogue expansion', src_lines=[], lost_hints=(m.group(4).split(';') if m.group(4) else [])))
     return res
 
 
